@@ -65,7 +65,7 @@ CHECKS = {
 }
 FUZZED = ["C01","C02","C03","C04","C05","C06","C07","C08","C09","C10","C12","C13","C15","C17","C18","C20"]
 for _c in FUZZED:
-    CHECKS[_c]["technique"] += "; the thorough tier adds coverage-guided fuzzing (cargo-fuzz / libFuzzer) that drives the same strategy through a pass-through RNG and runs the same oracle inside the target" + (", plus a byte-level target on raw note text" if _c == "C03" else "")
+    CHECKS[_c]["technique"] += "; the thorough tier adds coverage-guided fuzzing (cargo-fuzz / libFuzzer) that drives the same strategy through a pass-through RNG and runs the same oracle inside the target" + (", plus a byte-level target on raw note text" if _c == "C03" else ", plus a byte-level target (raw note texts and an operation history decoded from the fuzzer's bytes, forest-invariant oracle without the scanner)" if _c == "C20" else "")
 CHECKS["C11"]["technique"] += "; a sub-space (<= 1 request quick / <= 2 requests thorough, <= 2 notifications, every advance pattern) is enumerated completely"
 CHECKS["C05"]["technique"] += "; every library is judged twice: imported, and reached through updates of every note"
 ALL = ["C%02d" % i for i in range(1, 21)]
